@@ -9,6 +9,22 @@ package trie
 
 //@ func (*Trie).Get
 //@   props C10
-//@   trusted lookups write nothing (the trie's matching rules themselves are not verified here)
+//@   nopanic index,slice
 //@   modifies nothing
-//@   ensures result1 == trieHit(t, joinOf(path, "."))
+//@   ensures[unfolding_without_a_child] len(path) > 0 && !has(t.Children, path[0]) ==> tnode(t, path) == (t.SplatEntry != nil ? t : nil)
+//@   ensures[unfolding_with_a_child] len(path) > 0 && has(t.Children, path[0]) ==> tnode(t, path) == ((tnode(t.Children[path[0]], path[1:]) == nil && t.SplatEntry != nil) ? t : tnode(t.Children[path[0]], path[1:]))
+//@   ensures[the_lookup_rule] result0 == (tnode(t, path) == nil ? nil : (tsplat(t, path) ? tnode(t, path).SplatEntry : tnode(t, path).Entry))
+//@   ensures[the_answer_is_never_an_empty_entry] tnode(t, path) != nil ==> result0 != nil
+//@   ensures[found_means_an_entry] result1 == (result0 != nil)
+//@   assumes[names_the_hit_for_the_host_chain] result1 == trieHit(t, joinOf(path, "."))
+
+// The lookup rule, as a recursive function of the node and the remaining path: the entry of the node the whole
+// path leads to; where that is missing, the splat entry of the deepest node on the way that has one and still
+// has at least one label left to match (a splat never matches the empty remainder).
+//@ spec tnode(t *Trie, path []string) *Trie := len(path) == 0 ? (t.Entry != nil ? t : nil) : (((has(t.Children, path[0]) ? tnode(t.Children[path[0]], path[1:]) : nil) == nil && t.SplatEntry != nil) ? t : (has(t.Children, path[0]) ? tnode(t.Children[path[0]], path[1:]) : nil))
+//@ spec tsplat(t *Trie, path []string) bool := len(path) == 0 ? false : (((has(t.Children, path[0]) ? tnode(t.Children[path[0]], path[1:]) : nil) == nil && t.SplatEntry != nil) ? true : (has(t.Children, path[0]) ? tsplat(t.Children[path[0]], path[1:]) : false))
+
+//@ func (*Trie).getEntry
+//@   props C10
+//@   modifies nothing
+//@   ensures result0 == t.Entry && result1 == (t.Entry != nil)
